@@ -3,7 +3,7 @@
    (The former witnesses about pickling -- Index._positions and ArrayGO._array left writeable by __setstate__ -- were deleted when
    /repo commits 72854e7 and f0b8a42 repaired them; the regenerated table now says every array slot is re-frozen, see
    Properties/C01.v C01_setstate_refreezes_every_array_slot, and the histories are kept as regression cases in the check module.) *)
-Require Import SF.Prelude SF.Heap.
+Require Import SF.Prelude SF.Heap SF.HeapGrow Proofs.HeapGrowFacts.
 Local Open Scope nat_scope.
 
 (* FINDING C01-readonly-alias.  a = np.array([1,2,3]); v = a[:]; v.flags.writeable = False; s = sf.Series(v); a[0] = 99
@@ -29,3 +29,11 @@ Proof.
   split; [vm_compute; reflexivity|]. split; [vm_compute; repeat constructor|]. vm_compute. discriminate.
 Qed.
 Print Assumptions C01_own_data_view_refuted.
+
+(* STATED HYPOTHESIS of the growable-member theorems: a static container that keeps the member lists of a GROW-ONLY source
+   (what `Frame(frame_go)` would do if the constructor skipped TypeBlocks.copy()) changes when the source grows. *)
+Theorem C01_share_with_growable_refuted : exists h1 h2 c,
+  gguarded gw0 (h1 ++ h2) = false /\
+  gobs_at (grun gM_step gw0 (h1 ++ h2)) c <> gobs_at (grun gM_step gw0 h1) c.
+Proof. exact share_with_growable_refuted. Qed.
+Print Assumptions C01_share_with_growable_refuted.
